@@ -114,6 +114,17 @@ CHECKS["C08"] = {
     ],
 }
 
+CHECKS["C13"] = {
+    "harness": "c13",
+    "level": "exploration",
+    "floor": {"quick": 300, "thorough": 1000},
+    "timeout": {"quick": 1500, "thorough": 7200},
+    "assumptions": [
+        "tolerances are the storage formats' own quantisation: half precision 2^-11 relative, byte normals 1/127, byte colours 1/255",
+        "shapes stay unskinned as CreateShapeFromData makes them (skinned SSE shapes are regrouped by partition on save: C10)",
+    ],
+}
+
 for _pid, _floor in (("C18", 1000), ("C19", 1000), ("C20", 1000)):
     CHECKS[_pid] = {
         "harness": _pid.lower(),
